@@ -4,6 +4,8 @@
    gunzip, reference encoder of the published layout). *)
 From PF Require Import Base.Bytes Formats.Splat Formats.SplatProofs Formats.Spz Formats.SpzProofs.
 From Coq Require Import QArith Qabs.
+From PF Require Formats.SplatReal.
+From Coq Require Reals.
 Open Scope N_scope.
 
 (* ====================== .splat ====================== *)
@@ -188,3 +190,18 @@ Example spz_example :
     Some [(XQ (-1 # 16), XQ (-8388608 # 16), XQ (16 # 16)); (XQ (1 # 16), XQ (2 # 16), XQ (3 # 16))] /\
   option_map (fun r => length (f_sh (snd r))) (decode (encode_ref h [p1; p2])) = Some 3%nat.
 Proof. vm_compute. repeat split; reflexivity. Qed.
+
+(* ====================== scale clause over the real numbers ====================== *)
+(* The only theorem of this file that depends on the standard library's real-number axioms.
+   If rounding to float32 has relative error <= u <= 1/2 on the positive reals it is applied to, the
+   log of the stored float32(exp s) is within 2u of s: 2^-23 for float32 (u = 2^-24, normal range). *)
+Module RealScale.
+Import Reals.
+Local Open Scope R_scope.
+Theorem splat_scale_real : forall (rnd : R -> R) (u : R) (dom : R -> Prop),
+  0 <= u <= / 2 ->
+  (forall y, 0 < y -> dom y -> Rabs (rnd y - y) <= u * y) ->
+  forall s, dom (exp s) -> Rabs (ln (rnd (exp s)) - s) <= 2 * u.
+Proof. exact SplatReal.scale_roundtrip_real. Qed.
+Print Assumptions splat_scale_real.
+End RealScale.
